@@ -369,48 +369,53 @@ func ruleC15Locks(p *Prog, r *Res) {
 	}
 	// which functions are "called only with the lock held / from the constructor"
 	callerLocked := map[*Fn]string{}
-	for _, f := range p.FnList {
-		if f.Short != "converters" || f.Lit != nil {
-			continue
-		}
-		fo, _ := f.Pkg.TypesInfo.Defs[f.Decl.Name].(*types.Func)
-		if fo == nil || f.Decl.Recv == nil || recvTypeName(f.Decl.Recv.List[0].Type) != "cacheFile" {
-			continue
-		}
-		// does f itself lock?
-		self := false
-		for _, c := range callsIn(f.Body()) {
-			if se, ok := ast.Unparen(c.Fun).(*ast.SelectorExpr); ok && isFieldOf(f.Pkg.TypesInfo, se.X, mtx) {
-				self = true
-			}
-		}
-		if self {
-			continue
-		}
-		all, n := true, 0
-		for _, g := range p.FnList {
-			if g.Short != "converters" {
+	// fixpoint: a helper of a helper (truncateFile → writeHeader) is reached with the lock held as well
+	for changed := true; changed; {
+		changed = false
+		for _, f := range p.FnList {
+			if f.Short != "converters" || f.Lit != nil || callerLocked[f] != "" {
 				continue
 			}
-			gfl := p.Flow(g)
-			for _, b := range gfl.G.Blocks {
-				for i, node := range b.Nodes {
-					if !nodeCalls(p, g, node, func(fn *types.Func, _ *ast.CallExpr) bool { return fn == fo }) {
-						continue
-					}
-					n++
-					if g.Key() == "converters.NewCacheFile" {
-						continue
-					}
-					res := gfl.Reach([]Pt{gfl.Entry()}, func(m ast.Node) bool { return m == b.Nodes[i] }, holdsLock(g, "w"))
-					if res.Found {
-						all = false
+			fo, _ := f.Pkg.TypesInfo.Defs[f.Decl.Name].(*types.Func)
+			if fo == nil || f.Decl.Recv == nil || recvTypeName(f.Decl.Recv.List[0].Type) != "cacheFile" {
+				continue
+			}
+			// does f itself lock?
+			self := false
+			for _, c := range callsIn(f.Body()) {
+				if se, ok := ast.Unparen(c.Fun).(*ast.SelectorExpr); ok && isFieldOf(f.Pkg.TypesInfo, se.X, mtx) {
+					self = true
+				}
+			}
+			if self {
+				continue
+			}
+			all, n := true, 0
+			for _, g := range p.FnList {
+				if g.Short != "converters" {
+					continue
+				}
+				gfl := p.Flow(g)
+				for _, b := range gfl.G.Blocks {
+					for i, node := range b.Nodes {
+						if !nodeCalls(p, g, node, func(fn *types.Func, _ *ast.CallExpr) bool { return fn == fo }) {
+							continue
+						}
+						n++
+						if g.Key() == "converters.NewCacheFile" || callerLocked[g] != "" {
+							continue
+						}
+						res := gfl.Reach([]Pt{gfl.Entry()}, func(m ast.Node) bool { return m == b.Nodes[i] }, holdsLock(g, "w"))
+						if res.Found {
+							all = false
+						}
 					}
 				}
 			}
-		}
-		if all && n > 0 {
-			callerLocked[f] = fmt.Sprintf("all %d call sites hold the write lock or are in the constructor", n)
+			if all && n > 0 {
+				callerLocked[f] = fmt.Sprintf("all %d call sites hold the write lock, are in the constructor or in a helper that is itself only called so", n)
+				changed = true
+			}
 		}
 	}
 	nAcc := 0
